@@ -49,9 +49,13 @@ package model
 
 //@ fn NewStatus(workflow, nodes, status, pid, startTime, endTime) (st)
 //@   props C08
-//@   trusted
+//@   requires workflow != nil
+//@   nullable startTime endTime
 //@   modifies heap(alloc)
 //@   ensures st != nil && !wasAllocated(st) && st.Status == status && st.Name == workflow.Name
+//@   ensures [C08 node_table_is_the_node_state] len(nodes) != 0 ==> (len(st.Nodes) == len(nodes) &&
+//@        (forall i int :: 0 <= i && i < len(nodes) ==> (st.Nodes[i] != nil && st.Nodes[i].Status == nodes[i].State.Status &&
+//@            st.Nodes[i].RetryCount == nodes[i].State.RetryCount && st.Nodes[i].DoneCount == nodes[i].State.DoneCount && st.Nodes[i].Log == nodes[i].State.Log)))
 
 //@ fn NewStatusDefault(workflow) (st)
 //@   props C08 C16
@@ -64,10 +68,23 @@ package model
 //@   ensures [C08 node_table_from_the_nodes_when_there_are_any] len(nodes) != 0 ==> (len(ret) == len(nodes) &&
 //@        (forall i int :: 0 <= i && i < len(nodes) ==> (ret[i] != nil && ret[i].Status == nodes[i].State.Status &&
 //@            ret[i].RetryCount == nodes[i].State.RetryCount && ret[i].DoneCount == nodes[i].State.DoneCount && ret[i].Log == nodes[i].State.Log)))
+//@ fn NewNode(step) (n)
+//@   props C08
+//@   modifies heap(alloc)
+//@   ensures n != nil && !wasAllocated(n) && n.Step == step && n.Status == scheduler.NodeStatusNone && n.RetryCount == 0 && n.DoneCount == 0 && n.Log == ""
+//@ fn nodeOrNil(s) (n)
+//@   props C08
+//@   nullable s
+//@   modifies heap(alloc)
+//@   ensures (n == nil) <==> (s == nil)
+//@   ensures s != nil ==> (n.Step.Name == s.Name && n.Status == scheduler.NodeStatusNone)
 //@ fn FromSteps(steps) (ret)
 //@   props C08
-//@   trusted
 //@   modifies heap(alloc)
+//@   ensures [C08 one_not_started_record_per_step] len(ret) == len(steps) && (forall i int :: 0 <= i && i < len(steps) ==>
+//@        (ret[i] != nil && ret[i].Status == scheduler.NodeStatusNone && ret[i].Step.Name == steps[i].Name))
+//@   loop 0 invariant len(ret) == idx + 1
+//@   loop 0 invariant forall i int :: 0 <= i && i <= idx ==> (ret[i] != nil && ret[i].Status == scheduler.NodeStatusNone && ret[i].Step.Name == steps[i].Name)
 //@ fn FormatTime(val) (r)
 //@   props C08
 //@   trusted
